@@ -1,6 +1,7 @@
 import RlibModel.Lemmas.ReaderDecimal
 import RlibModel.Lemmas.ReaderSched
 import RlibModel.Lemmas.ReaderDomain
+import RlibModel.Lemmas.ReaderMulti
 /-!
 # C08 — Reader results depend only on the input bytes, not on delivery
 
@@ -267,6 +268,15 @@ example : specScript [.read (.int ⟨true, 8⟩)] [45, 49, 50, 56] = [.out (.val
 /-- outside the domain: a `char` read with only whitespace left is `undef` in the specification -/
 example : specScript [.read .chr] [32, 10] = [.undef] := by decide +kernel
 
+/-- NUL is a token byte like any other, although it is also the value `peek` yields at end of input (seeded C09_m10 ended
+    tokens at a NUL): `a␀b ␀` read as two strings, byte-wise delivery with an Interrupted, BUF = 2; a line containing NUL and VT -/
+example : specScript [.read .str, .read .str, .eof] [97, 0, 98, 32, 0] =
+    [.out (.val (.str [97, 0, 98])), .out (.val (.str [0])), .out (.bool true)] := by decide +kernel
+example : runScript 6 [.read .str, .read .str, .eof] (init 2 [.data [97], .intr, .data [0, 98, 32], .data [0]]) =
+    [.out (.val (.str [97, 0, 98])), .out (.val (.str [0])), .out (.bool true)] := by decide +kernel
+example : runScript 7 [.read .chr, .line, .line] (init 3 [.data [0, 11, 0, 13], .data [10, 0]]) =
+    [.out (.val (.chr 0)), .out (.line (some [11, 0])), .out (.line (some [0]))] := by decide +kernel
+
 /-- `parse_render` at the extremes: `i8::MIN`, `u8::MAX`, `i64::MIN` -/
 example : render (-128) = [45, 49, 50, 56] ∧ render 255 = [50, 53, 53] := by decide +kernel
 example : specInt ⟨true, 8⟩ ([32, 10] ++ render (-128) ++ [13, 10]) = .ok (-128, [13, 10]) :=
@@ -289,5 +299,141 @@ example : specInt ⟨true, 8⟩ [32, 45, 49, 50, 56, 10, 55] = .ok (-128, [10, 5
 /-- the in-domain prefix of a script ends at the first invalid token: `1 1234 5` read as three `u8` -/
 example : domPrefix [.read (.int ⟨false, 8⟩), .read (.int ⟨false, 8⟩), .read (.int ⟨false, 8⟩)] [49, 32, 49, 50, 51, 52, 32, 53] = 1 := by
   decide +kernel
+
+/-! ### Several live readers (wave 3, class (B); seeded C08_m10: the buffer moved into a thread-local shared by all
+readers of a thread).  `runMulti` / `specMulti` / `projOps` / `projRes` / `domPrefixM` / `initMulti` are the definitions
+the driver runs for a case line with more than one reader (`Model/ReaderMulti.lean`). -/
+
+/-- **multi_refines**: a script over several readers, each in a reachable state of its own (own buffer size, own
+    pending source), yields the specification's trace on the list of remaining byte strings. -/
+theorem multi_refines (fuel : Nat) (ops : List MOp) (st : List RState) (hall : AllInv fuel st)
+    (hdef : some Res.undef ∉ specMulti ops (st.map R)) :
+    runMulti fuel ops st = specMulti ops (st.map R) :=
+  runMulti_spec fuel ops st hall hdef
+
+/-- **multi_schedule_independent** — in the vocabulary of the case lines: for every list of (schedule, input) pairs
+    (chunk sizes ≥ 1, Interrupted anywhere), every buffer size ≥ 1 and every interleaved script with a defined
+    specification trace, the model's answer (field `M`) is the specification's answer on the plain inputs (field `S`). -/
+theorem multi_schedule_independent (BUF : Nat) (hB : 0 < BUF) (ins : List (Sched × List UInt8))
+    (hpos : ∀ p ∈ ins, ∀ k n, (some k, n) ∈ p.1 → 0 < k) (script : List MOp)
+    (hdef : some Res.undef ∉ specMulti script (ins.map (·.2))) :
+    runMulti (maxLen (ins.map (·.2)) + 1) script (initMulti BUF ins) = specMulti script (ins.map (·.2)) := by
+  obtain ⟨hall, hR⟩ := initMulti_spec BUF hB ins hpos
+  have := runMulti_spec _ script (initMulti BUF ins) hall (by rw [hR]; exact hdef)
+  rw [this, hR]
+
+/-- The specification is an interleaving: the results addressed to reader `k` are a prefix of the trace of reader
+    `k`'s own script on reader `k`'s own input (the multi-reader trace ends at the first panic of any reader) … -/
+theorem spec_reader_independent_prefix (k : Nat) (ops : List MOp) (rest : List (List UInt8)) (input : List UInt8)
+    (hk : rest[k]? = some input) : projRes k ops (specMulti ops rest) <+: specScript (projOps k ops) input :=
+  projRes_specMulti_prefix k ops rest input hk
+
+/-- … and exactly that trace when no reader panics and nothing is undefined. -/
+theorem spec_reader_independent (k : Nat) (ops : List MOp) (rest : List (List UInt8)) (input : List UInt8)
+    (hk : rest[k]? = some input) (hc : cleanTrace (specMulti ops rest) = true) :
+    projRes k ops (specMulti ops rest) = specScript (projOps k ops) input :=
+  projRes_specMulti_eq k ops rest input hk hc
+
+/-- **readers_independent**: what reader `k` returns in an interleaved run with other live readers (each over its own
+    input, delivery schedule and buffer) is what the same calls return on a reader used ALONE over the same bytes —
+    under any other delivery and buffer size. The other readers' inputs, schedules and calls do not appear on the right. -/
+theorem readers_independent (fuel : Nat) (ops : List MOp) (st : List RState) (hall : AllInv fuel st)
+    (hc : cleanTrace (specMulti ops (st.map R)) = true)
+    (k : Nat) (s : RState) (hk : st[k]? = some s)
+    (BUF' : Nat) (hB' : 0 < BUF') (s' : RState) (hi' : Inv BUF' s') (hsame : R s' = R s)
+    (fuel' : Nat) (hf' : (R s').length < fuel') :
+    projRes k ops (runMulti fuel ops st) = runScript fuel' (projOps k ops) s' := by
+  have hu := undef_not_mem_of_clean _ hc
+  rw [runMulti_spec fuel ops st hall hu]
+  have hk' : (st.map R)[k]? = some (R s) := by simp [hk]
+  have he := projRes_specMulti_eq k ops (st.map R) (R s) hk' hc
+  rw [he]
+  have hd : Res.undef ∉ specScript (projOps k ops) (R s') := by
+    rw [hsame, ← he]
+    intro hm
+    -- an `undef` among the results of reader `k` would be an `undef` of the whole trace
+    have : ∀ (ops : List MOp) (rs : List MRes), Res.undef ∈ projRes k ops rs → some Res.undef ∈ rs := by
+      intro ops
+      induction ops with
+      | nil => intro rs h; simp [projRes] at h
+      | cons mop ops ih =>
+        intro rs h
+        cases rs with
+        | nil => cases mop <;> simp [projRes] at h
+        | cons r rs =>
+          cases mop with
+          | life j => simp only [projRes] at h; exact List.mem_cons_of_mem _ (ih rs h)
+          | run j op =>
+            cases r with
+            | none => simp only [projRes] at h; exact List.mem_cons_of_mem _ (ih rs h)
+            | some x =>
+              simp only [projRes] at h
+              split at h
+              · rcases List.mem_cons.mp h with h | h
+                · subst h; exact List.mem_cons_self
+                · exact List.mem_cons_of_mem _ (ih rs h)
+              · exact List.mem_cons_of_mem _ (ih rs h)
+    exact hu (this _ _ hm)
+  rw [runScript_spec BUF' hB' fuel' (projOps k ops) s' hi' hf' hd, hsame]
+
+/-- The part of a multi-reader script that the driver constrains (`domPrefixM`: every call judged on the remaining
+    input of its own reader) has a clean specification trace: no panic, nothing undefined. -/
+theorem multi_dom_prefix_clean (ops : List MOp) (rest : List (List UInt8)) :
+    cleanTrace ((specMulti ops rest).take (domPrefixM ops rest)) = true :=
+  domPrefixM_clean ops rest
+
+/-! non-vacuity: reader 0 over `-12 x␍␊y␍` (three deliveries as above), reader 1 over `7 ab␊` delivered byte by byte
+    with interrupts; reader 1 is created after reader 0 has buffered input, used between two calls of reader 0 and dropped -/
+def srcD : List Event := [.intr, .data [55], .data [32], .intr, .data [97], .data [98], .data [10]]
+def scriptM : List MOp :=
+  [.life 0, .run 0 (.read (.int ⟨true, 32⟩)), .life 1, .run 1 (.read (.int ⟨false, 8⟩)), .run 0 .line, .run 1 (.read .str),
+   .run 0 .line, .life 1, .run 0 .line, .run 0 .eof]
+def traceM : List MRes :=
+  [none, some (.out (.val (.int (-12)))), none, some (.out (.val (.int 7))), some (.out (.line (some [32, 120]))),
+   some (.out (.val (.str [97, 98]))), some (.out (.line (some [121, 13]))), none, some (.out (.line none)), some (.out (.bool true))]
+
+example : runMulti 10 scriptM [init 4 srcA, init 2 srcD] = traceM := by decide +kernel
+example : runMulti 10 scriptM [init 1 srcC, init 64 srcD] = traceM := by decide +kernel
+example : specMulti scriptM [srcBytes srcA, srcBytes srcD] = traceM := by decide +kernel
+example : cleanTrace traceM = true := by decide +kernel
+example : projOps 0 scriptM = scriptA ∧ projRes 0 scriptM traceM = traceA := by decide +kernel
+example : projOps 1 scriptM = [.read (.int ⟨false, 8⟩), .read .str] ∧
+    projRes 1 scriptM traceM = [.out (.val (.int 7)), .out (.val (.str [97, 98]))] := by decide +kernel
+example : domPrefixM scriptM [srcBytes srcA, srcBytes srcD] = 10 := by decide +kernel
+/-- the hypotheses of `multi_refines` / `readers_independent` hold for these states -/
+example : AllInv 10 [init 4 srcA, init 2 srcD] := by
+  intro s hs
+  simp only [List.mem_cons, List.not_mem_nil, or_false] at hs
+  rcases hs with rfl | rfl
+  · exact ⟨4, by decide, init_inv 4 _ (by simp [srcA, SrcOk]), by rw [init_R]; decide +kernel⟩
+  · exact ⟨2, by decide, init_inv 2 _ (by simp [srcD, SrcOk]), by rw [init_R]; decide +kernel⟩
+/-- the theorem instantiated: reader 0 interleaved with reader 1 answers like reader 0 alone under another delivery -/
+example : projRes 0 scriptM (runMulti 10 scriptM [init 4 srcA, init 2 srcD]) = runScript 10 scriptA (init 1 srcC) := by
+  have hall : AllInv 10 [init 4 srcA, init 2 srcD] := by
+    intro s hs
+    simp only [List.mem_cons, List.not_mem_nil, or_false] at hs
+    rcases hs with rfl | rfl
+    · exact ⟨4, by decide, init_inv 4 _ (by simp [srcA, SrcOk]), by rw [init_R]; decide +kernel⟩
+    · exact ⟨2, by decide, init_inv 2 _ (by simp [srcD, SrcOk]), by rw [init_R]; decide +kernel⟩
+  have h := readers_independent 10 scriptM [init 4 srcA, init 2 srcD] hall (by decide +kernel) 0 (init 4 srcA) rfl
+    1 (by decide) (init 1 srcC) (init_inv 1 _ (by simp [srcC, SrcOk])) (by rw [init_R, init_R]; decide +kernel)
+    10 (by rw [init_R]; decide +kernel)
+  have e : projOps 0 scriptM = scriptA := by decide +kernel
+  rw [e] at h; exact h
+/-- a panic of one reader ends the multi-reader trace; the other reader's results are then a proper prefix -/
+example : specMulti [.run 0 (.read (.int ⟨true, 8⟩)), .run 1 (.read (.int ⟨true, 8⟩)), .run 0 .eof] [[53, 32], [49, 50, 56]]
+    = [some (.out (.val (.int 5))), some (.panic .overflow)] ∧
+    domPrefixM [.run 0 (.read (.int ⟨true, 8⟩)), .run 1 (.read (.int ⟨true, 8⟩)), .run 0 .eof] [[53, 32], [49, 50, 56]] = 1 := by
+  decide +kernel
+/-- a case line: two (schedule, input) pairs -/
+example : runMulti (maxLen [[45, 49, 50, 32, 120, 13, 10, 121, 13], [55, 32, 97, 98, 10]] + 1) scriptM
+    (initMulti 4 [([(some 1, 1), (none, 1), (some 2, 1)], [45, 49, 50, 32, 120, 13, 10, 121, 13]), ([(some 1, 5)], [55, 32, 97, 98, 10])])
+    = traceM := by
+  have h := multi_schedule_independent 4 (by decide)
+    [([(some 1, 1), (none, 1), (some 2, 1)], [45, 49, 50, 32, 120, 13, 10, 121, 13]), ([(some 1, 5)], [55, 32, 97, 98, 10])]
+    (by intro p hp k n h; simp at hp; rcases hp with rfl | rfl <;> simp at h <;> omega) scriptM (by decide +kernel)
+  have e : specMulti scriptM [[45, 49, 50, 32, 120, 13, 10, 121, 13], [55, 32, 97, 98, 10]] = traceM := by decide +kernel
+  simp only [List.map] at h
+  rw [e] at h; exact h
 
 end Rlib.C08
